@@ -72,6 +72,24 @@ def _members(draw: Any, namer: gen.Namer, depth: int, priv_bias: int) -> tuple[l
     return [members[i] for i in perm], ctor
 
 
+def class_order(draw: Any, cls: dict) -> None:
+    """Draws an explicit source order for the members of a class (and of its nested classes): attributes, methods,
+    nested classes and the constructor interleaved in any order (the default renderer puts attributes first)."""
+    n = len(cls["members"])
+    if draw(st.booleans()):
+        items: list[list] = [["m", i] for i in range(n)] + ([["ctor"]] if cls.get("ctor") else [])
+        perm = draw(st.permutations(range(len(items))))
+        order = [items[i] for i in perm]
+        # core domain: a constructor that re-assigns an attribute of the class body comes after that attribute's
+        # declaration (the reverse order loses the attribute: open finding KF-C03-init-before-body-declaration)
+        if cls.get("ctor") and any(a.get("dup") for a in cls["ctor"].get("init_attrs", [])):
+            order = [o for o in order if o[0] != "ctor"] + [["ctor"]]
+        cls["order"] = order
+    for m in cls["members"]:
+        if m["t"] == "class":
+            class_order(draw, m)
+
+
 @st.composite
 def struct_package(draw: Any, pkgname: str, want_reexports: bool = True, priv_bias: int = 3, with_enums: bool = True) -> dict:
     namer = gen.Namer()
@@ -95,6 +113,7 @@ def struct_package(draw: Any, pkgname: str, want_reexports: bool = True, priv_bi
                 elif k == "class":
                     members, ctor = draw(_members(namer, 0, priv_bias))
                     decls.append(gt.klass(("_" if priv else "") + namer.fresh("Cls"), members, ctor=ctor))
+                    class_order(draw, decls[-1])
                 else:
                     variants = [("_" if draw(st.integers(0, 5)) == 0 else "") + namer.fresh("V") for _ in range(draw(st.integers(0, 3)))]
                     decls.append(gt.enum(("_" if priv else "") + namer.fresh("En"), variants))
@@ -102,6 +121,7 @@ def struct_package(draw: Any, pkgname: str, want_reexports: bool = True, priv_bi
     # ---- re-exports (core forms: one re-export per declaration, in the module's package or an ancestor)
     inits: dict[str, list] = {}
     reexp: list[dict] = []
+    used_collision_names: set[str] = set()
     if want_reexports:
         for m in modules:
             ppath = m["path"][:-1]
@@ -119,6 +139,13 @@ def struct_package(draw: Any, pkgname: str, want_reexports: bool = True, priv_bi
                 for d in m["decls"]:
                     if d["t"] == "enum" or draw(st.booleans()):
                         continue
+                    if d["t"] == "func" and not is_private_name(d["name"]) and draw(st.integers(0, 3)) == 0:
+                        # a re-exported function named like (a prefix of) a path segment: 'from ._bar import progress'
+                        # in package 'progress', or a name that also starts the name of the output directory
+                        cand = draw(st.sampled_from([target[-1].lstrip("_"), target[-1].lstrip("_")[:3], "o", "out", "tmp", "deep", "s", pkgname[:3]]))
+                        if cand and cand not in used_collision_names and cand.isidentifier():
+                            used_collision_names.add(cand)
+                            d["name"] = cand
                     alias = None
                     r = draw(st.integers(0, 5))
                     if r == 0:
